@@ -161,10 +161,28 @@ def run(prop, verbose=True):
     else:
         bad += 1
         print("  self-test FAIL  verdict depends on source layout (re-formatted package gives other obligations / findings)")
+    # whole-package respellings (msa/transforms.py): same findings, nothing undecided
+    from .transforms import TRANSFORMS, build_overlay
+    k0 = sorted(f.key() for f in new0 + old0) if same or 'new0' in dir() else None
+    for tname, T in TRANSFORMS.items():
+        n_b += 1
+        try:
+            rc2, c2, new2, old2 = run_property(prop, "quick", repo=Repo(overlay=build_overlay(base, T)), quiet=True, write=False)
+            good = k0 is not None and sorted(f.key() for f in new2 + old2) == k0 and not c2.undecided_list
+            why = "" if good else f"findings {[f.key()[1:] for f in new2][:3]} undecided {[f.rule for f in c2.undecided_list][:5]}"
+        except Exception as e:  # noqa
+            good, why = False, f"{type(e).__name__}: {e}"
+        if good:
+            n_ok += 1
+            if verbose:
+                print(f"  self-test ok    respelling `{tname}`: same findings")
+        else:
+            bad += 1
+            print(f"  self-test FAIL  verdict changes under the behaviour-preserving respelling `{tname}`: {why[:300]}")
     print(f"  self-test {prop}: {n_ok}/{n_b} variants behaved as required, {n_s} skipped")
     global LAST
     LAST = {"variants_run": n_b, "variants_as_required": n_ok, "variants_skipped": n_s,
-            "breaking_variants": len(breaking), "benign_variants": len(benign) + 1}
+            "breaking_variants": len(breaking), "benign_variants": len(benign) + 1, "whole_package_respellings": len(TRANSFORMS)}
     return 1 if bad else 0
 
 
